@@ -43,6 +43,11 @@ class KnownFinding(Exception):
         self.detail = detail
 
 
+class StopShrinking(BaseException):
+    """Raised from inside the test function to end Hypothesis' shrinking when
+    its time budget is used up (BaseException: the engine lets it through)."""
+
+
 class Ctx:
     """Per-case recorder handed to a sub-check body."""
 
@@ -250,9 +255,8 @@ def _run_hypothesis(sub, tier, seed, rec, budget_s):
             rec.budget_skipped += 1
             return
         if state["fail"] is not None and now - state["t_fail"] > SHRINK_CAP[tier]:
-            # shrinking budget used up: keep only the best failure found so far
-            if case != state["fail"][1]:
-                return
+            # shrinking budget used up: keep the best failure found so far
+            raise StopShrinking()
         res = evaluate(sub, case, rec, record=state["fail"] is None)
         if res is None or res[0] == "known":
             return
@@ -285,8 +289,7 @@ def _run_machine(sub, tier, seed, rec, budget_s):
             rec.budget_skipped += 1
             return
         if state["fail"] is not None and now - state["t_fail"] > SHRINK_CAP[tier]:
-            if history_case != state["fail"][1]:
-                return
+            raise StopShrinking()
         if final:
             res = evaluate(sub, history_case, rec, record=state["fail"] is None)
         else:
